@@ -135,7 +135,7 @@ func (dist *LaplaceDistribution) SetParameters(parameters Vector) error {
 
 func (obj *LaplaceDistribution) ImportConfig(config ConfigDistribution, t ScalarType) error {
 
-  if parameters, ok := config.GetParametersAsFloats(); !ok {
+  if parameters, ok := config.GetParametersAsFloats(); !ok || len(parameters) < 2 {
     return fmt.Errorf("invalid config file")
   } else {
     mu    := NewScalar(t, parameters[0])
